@@ -118,6 +118,7 @@ pub struct Sink {
     pub n_cases: u64,
     pub n_oracle_fail: u64,
     pub n_oracle_checks: u64,
+    dir: Option<String>,
 }
 
 impl Sink {
@@ -131,6 +132,7 @@ impl Sink {
             n_cases: 0,
             n_oracle_fail: 0,
             n_oracle_checks: 0,
+            dir: Some(dir.to_string()),
         }
     }
     /// one case line and the implementation's canonical observation for it
@@ -139,6 +141,12 @@ impl Sink {
         writeln!(self.cases, "{}", case).unwrap();
         writeln!(self.obs, "{}", obs).unwrap();
         self.n_cases += 1;
+    }
+    /// record the case that is about to run (survives an abort of the process)
+    pub fn announce(&mut self, case: &str) {
+        if let Some(dir) = &self.dir {
+            let _ = std::fs::write(format!("{}/current.txt", dir), case);
+        }
     }
     /// the property evaluated directly on the implementation
     pub fn oracle(&mut self, prop: &str, ok: bool, case: &str, detail: &str) {
